@@ -8,6 +8,7 @@ from __future__ import unicode_literals
 
 from django_evolution.compat import six
 from django_evolution.compat.models import get_model_name
+from django_evolution.errors import EvolutionException
 from django_evolution.models import Evolution
 from django_evolution.support import supports_migrations
 from django_evolution.utils.apps import get_app_label
@@ -268,6 +269,11 @@ class DependencyGraph(object):
         Returns:
             list of Node:
             The list of ndoes, in dependency order.
+
+        Raises:
+            django_evolution.errors.EvolutionException:
+                The dependencies between the nodes are circular, and cannot
+                all be satisfied.
         """
         assert self._finalized
 
@@ -313,12 +319,29 @@ class DependencyGraph(object):
                         #
                         # We'll mark that we've processed this, so we don't
                         # re-scan the dependencies again.
+                        processed.add(node)
+
+                        for dep in node.dependencies:
+                            if dep in processed and dep not in visited:
+                                # This dependency is still waiting on the
+                                # node that depends on it.
+                                raise EvolutionException(
+                                    'Circular dependency found between '
+                                    '"%s" and "%s".'
+                                    % (node.key, dep.key))
+
                         stack.append(node)
                         stack += sorted(node.dependencies,
                                         key=lambda dep: dep.insert_index,
                                         reverse=True)
 
-                        processed.add(node)
+        for node in six.itervalues(self._nodes):
+            if node not in result_set:
+                # This node is part of a dependency cycle (or is required
+                # only by one), and cannot be reached from any leaf node.
+                raise EvolutionException(
+                    'Circular dependency found involving "%s".'
+                    % node.key)
 
         return result
 
